@@ -524,6 +524,35 @@ def r10_element_position(ctx):
             raise AnalysisError('%s.visit_ele: position expressions not found' % cname)
 
 
+def r11_trailer_errors_count(ctx):
+    """the trailer of a set or group is validated (node.is_valid) AFTER its loop was closed, and its element errors are
+    attached to the closed loop node.  A set / group is marked accepted exactly when no error was reported inside it,
+    so the code must not be frozen at close time: either the trailer is validated before close_*_loop, or the
+    acknowledgement code is re-evaluated from the error counts whenever it is read (a property that consults
+    err_count() / _get_ack_code())."""
+    fn = ctx.func('x12n_document', 'x12n_document')
+    g = ctx.cfg(fn)
+    dom = g.dominators()
+    valid_nodes = [nd for nd in g.nodes if any(isinstance(x, ast.Call) and A.call_target(x) == ('node', 'is_valid') for x in g.walk_exprs(nd))]
+    if not valid_nodes:
+        raise AnalysisError('x12n_document: node.is_valid call not found')
+    for lvl, cname, counter in (('st', 'err_st', 'err_count'), ('gs', 'err_gs', '_get_ack_code')):
+        closes = [nd for nd in g.nodes if any(isinstance(x, ast.Call) and A.call_target(x)[1] == 'close_%s_loop' % lvl for x in g.walk_exprs(nd))]
+        if len(closes) != 1:
+            raise AnalysisError('x12n_document: close_%s_loop call not found' % lvl)
+        validated_first = any(v.id in dom[closes[0].id] for v in valid_nodes)
+        cls = ctx.cls('error_handler', cname)
+        lazy = False
+        for f in cls.body:
+            if isinstance(f, ast.FunctionDef) and f.name == 'ack_code' and any(isinstance(d, ast.Name) and d.id == 'property' for d in f.decorator_list):
+                lazy = any(A.call_target(c) == ('self', counter) for c in A.calls_in(f))
+        ok = validated_first or lazy
+        yield Ob('error_handler:%s acknowledgement code reflects errors on the trailer segment itself' % cname, ok, ctx.floc(fn, closes[0].stmt),
+                 '' if ok else 'close_%s_loop fixes the code before the trailer is validated (node.is_valid runs afterwards) and %s.ack_code is a plain '
+                 'attribute: an error on the %s segment leaves the %s marked accepted while the verdict is False'
+                 % (lvl, cname, 'SE' if lvl == 'st' else 'GE', 'set' if lvl == 'st' else 'group'))
+
+
 RULES = [
     Rule('C05.R1', 'verdict True only through valid and error-count-zero edges; other exits False', r1_verdict, floor=3),
     Rule('C05.R2', 'sibling "has errors" deciders consult every stored evidence field', r2_evidence, floor=6),
@@ -535,4 +564,5 @@ RULES = [
     Rule('C05.R8', 'shared with C04.R1: the received-set count the acknowledgement reports is the reader\'s, counted unconditionally', r8_shared_reader_counts, floor=37),
     Rule('C05.R9', 'reader errors are handed to the error tree before the loop they concern is closed', r9_reader_errors_before_close, floor=3),
     Rule('C05.R10', 'AK401/IK401 carry element, component and repetition position each in its own place', r10_element_position, floor=4),
+    Rule('C05.R11', 'errors on SE/GE themselves are reflected in the set/group code (validated before close, or code evaluated when read)', r11_trailer_errors_count, floor=2),
 ]
